@@ -57,6 +57,21 @@ def expand_skip(argv, workdir):
     return argv
 
 
+def disk_lines(b):
+    """the lines of a file as the operating system and the language define them: separated by CR LF, LF or CR - nothing else
+    (decoded like VSG's reader: UTF-8, else ISO-8859-1)"""
+    import re
+
+    try:
+        text = b.decode("utf-8")
+    except UnicodeDecodeError:
+        text = b.decode("ISO-8859-1")
+    lines = re.split(r"\r\n|\r|\n", text)
+    if lines and lines[-1] == "":
+        lines.pop()
+    return lines
+
+
 def parse_args(argv):
     old = sys.argv
     sys.argv = ["vsg"] + list(argv)
@@ -119,6 +134,7 @@ def run_item(item, job, interner, classes, workdir):
                 st0 = os.stat(tmp)
                 with open(tmp, "rb") as f:
                     b0 = f.read()
+                T.disk_lines = disk_lines(b0)
                 nfix0 = T.stats.get("nfix", 0)
                 rd = {"nfix": -1, "ok": False, "sameInode": True, "sameMtime": True, "sameBytes": True}
                 rec["rounds"].append(rd)
